@@ -7,10 +7,26 @@ use std::io::{BufRead, Write};
 use ttl_cache::TtlCache;
 
 fn frame(src: [u8; 4], dst: [u8; 4], sport: u16, dport: u16, seq: u32, flags: u8, payload: &[u8], ipid: u16) -> Vec<u8> {
+    frame_opts(src, dst, sport, dport, seq, flags, &[], payload, ipid)
+}
+
+/// TCP timestamp option (NOP NOP TS) for data segments, or the usual SYN option block (mss, sok, ts, nop, ws) when `syn`
+fn ts_opts(syn: bool, val: u32) -> Vec<u8> {
+    let mut o = if syn { vec![2, 4, 5, 0xb4, 4, 2, 8, 10] } else { vec![1, 1, 8, 10] };
+    o.extend_from_slice(&val.to_be_bytes());
+    o.extend_from_slice(&[0, 0, 0, 0]);
+    if syn {
+        o.extend_from_slice(&[1, 3, 3, 7]);
+    }
+    o
+}
+
+fn frame_opts(src: [u8; 4], dst: [u8; 4], sport: u16, dport: u16, seq: u32, flags: u8, opts: &[u8], payload: &[u8], ipid: u16) -> Vec<u8> {
     let mut tcp = vec![(sport >> 8) as u8, sport as u8, (dport >> 8) as u8, dport as u8];
     tcp.extend_from_slice(&seq.to_be_bytes());
     tcp.extend_from_slice(&1u32.to_be_bytes());
-    tcp.extend_from_slice(&[0x50, flags, 0xff, 0xff, 0, 0, 0, 0]);
+    tcp.extend_from_slice(&[((5 + opts.len() / 4) as u8) << 4, flags, 0xff, 0xff, 0, 0, 0, 0]);
+    tcp.extend_from_slice(opts);
     tcp.extend_from_slice(payload);
     let total = (20 + tcp.len()) as u16;
     let mut f = vec![2, 0, 0, 0, 0, 2, 2, 0, 0, 0, 0, 1, 8, 0, 0x45, 0, (total >> 8) as u8, total as u8, (ipid >> 8) as u8, ipid as u8, 0x40, 0, 64, 6, 0, 0];
@@ -121,6 +137,8 @@ pub fn run(input: &mut dyn BufRead, out: &mut dyn Write, _args: &[String]) -> R 
         let dir_server = v["server"].as_bool().unwrap_or(false);
         let stop_retained = v["stop_retained"].as_u64().unwrap_or(u64::MAX) as usize;
         let stop_alloc = v["stop_alloc"].as_u64().unwrap_or(u64::MAX) as usize;
+        // every segment carries a TCP timestamp (the SYN and the SYN+ACK the usual option block): the TCP tracker gets something to store
+        let with_ts = v["timestamps"].as_bool().unwrap_or(false);
         let r = guarded(|| -> Value {
             let seed = 0x9e37_79b9_7f4a_7c15u64 ^ (u(&v["seed"]) + 1);
             // analyzers' per-instance state, exactly the tables the crates' front ends own
@@ -153,17 +171,23 @@ pub fn run(input: &mut dyn BufRead, out: &mut dyn Write, _args: &[String]) -> R 
             let sp = if krate == "tls" || kind.starts_with("tls") || v["port"].as_u64() == Some(443) { 443 } else { 80 };
             let mut idx = 0usize;
             let (mut cseq, mut sseq) = (1001u32, 5001u32);
-            // packet 0: the SYN of every connection
+            // packet 0: the SYN of every connection (with timestamps: followed by the SYN+ACK)
             let mut plan: Vec<(bool, Vec<u8>, u32, u8)> = vec![(false, vec![], 1000, 0x02)];
+            if with_ts {
+                plan.push((true, vec![], 5000, 0x12));
+            }
             let mut gen_seed = seed;
             let total_steps: usize = steps.iter().map(|s| s.n).sum();
+            // what the harness itself keeps (the recorded events) is not the analyzer's: measured around every push and subtracted
+            let mut own = 0usize;
             let mut feed = |plan: &mut Vec<(bool, Vec<u8>, u32, u8)>, events: &mut Vec<Value>, maxima: &mut (usize, usize), idx: &mut usize| -> bool {
                 for (server, p, seq, flags) in plan.drain(..) {
                     let i = *idx;
                     for c in 0..nconn {
                         let (cip, sip) = ([10, 70, (c >> 8) as u8, c as u8], [10, 80, 0, 1]);
                         let cp = 20000 + (c % 40000) as u16;
-                        let f = if server { frame(sip, cip, sp, cp, seq, flags, &p, (i * nconn + c) as u16) } else { frame(cip, sip, cp, sp, seq, flags, &p, (i * nconn + c) as u16) };
+                        let opts = if with_ts { ts_opts(flags & 0x02 != 0, 100_000 + (c as u32) * 7 + (i as u32)) } else { vec![] };
+                        let f = if server { frame_opts(sip, cip, sp, cp, seq, flags, &opts, &p, (i * nconn + c) as u16) } else { frame_opts(cip, sip, cp, sp, seq, flags, &opts, &p, (i * nconn + c) as u16) };
                         let flen = f.len();
                         let before_total = crate::alloc_count::total();
                         match krate.as_str() {
@@ -182,12 +206,14 @@ pub fn run(input: &mut dyn BufRead, out: &mut dyn Write, _args: &[String]) -> R 
                             k => panic!("crate {k}"),
                         }
                         let allocated = crate::alloc_count::total() - before_total;
-                        let retained = crate::alloc_count::live().saturating_sub(base_live);
+                        let retained = crate::alloc_count::live().saturating_sub(base_live).saturating_sub(own);
                         *maxima = (maxima.0.max(retained), maxima.1.max(allocated));
                         // every event is recorded up to 64 segments, then at exponentially spaced indices and whenever a bound is exceeded
                         let over = retained > stop_retained || allocated > stop_alloc;
                         if i <= 64 || (i & (i - 1)) == 0 || i == total_steps || over {
+                            let l0 = crate::alloc_count::live();
                             events.push(json!({"conn": c, "idx": i, "len": flen, "retained": retained, "allocated": allocated}));
+                            own += crate::alloc_count::live().saturating_sub(l0);
                         }
                         if over {
                             return false; // the excess is the finding; continuing would only burn time
